@@ -975,6 +975,54 @@ impl World {
         })
     }
 
+    /// the channel is set up by the protocol message SetupChannel through the channel handler: the
+    /// message is assembled here field by field from the setup (BOLT-9 feature vector for the
+    /// channel type), the handler maps it back
+    pub fn setup_channel_wire(&self, dbid: u64, setup: &ChannelSetup) -> Outcome<()> {
+        use vls_protocol::serde_bolt::Octets;
+        let mut bits: Vec<usize> = vec![];
+        match setup.commitment_type {
+            CommitmentType::Legacy => {}
+            CommitmentType::StaticRemoteKey => bits.push(12),
+            CommitmentType::Anchors => bits.extend([12, 20]),
+            CommitmentType::AnchorsZeroFeeHtlc => bits.extend([12, 22]),
+        }
+        // feature bit i is bit i % 8 of the byte i / 8 counted from the end
+        let len = bits.iter().map(|b| b / 8 + 1).max().unwrap_or(0);
+        let mut channel_type = vec![0u8; len];
+        for b in bits {
+            channel_type[len - 1 - b / 8] |= 1 << (b % 8);
+        }
+        let cp = &setup.counterparty_points;
+        let pk = |k: &PublicKey| PubKey(k.serialize());
+        let m = msgs::SetupChannel {
+            is_outbound: setup.is_outbound,
+            channel_value: setup.channel_value_sat,
+            push_value: setup.push_value_msat,
+            funding_txid: setup.funding_outpoint.txid,
+            funding_txout: setup.funding_outpoint.vout as u16,
+            to_self_delay: setup.holder_selected_contest_delay,
+            local_shutdown_script: Octets(setup.holder_shutdown_script.as_ref().map(|s| s.to_bytes()).unwrap_or_default()),
+            local_shutdown_wallet_index: None,
+            remote_basepoints: model::Basepoints {
+                revocation: pk(&cp.revocation_basepoint.to_public_key()),
+                payment: pk(&cp.payment_point),
+                htlc: pk(&cp.htlc_basepoint.to_public_key()),
+                delayed_payment: pk(&cp.delayed_payment_basepoint.to_public_key()),
+            },
+            remote_funding_pubkey: pk(&cp.funding_pubkey),
+            remote_to_self_delay: setup.counterparty_selected_contest_delay,
+            remote_shutdown_script: Octets(setup.counterparty_shutdown_script.as_ref().map(|s| s.to_bytes()).unwrap_or_default()),
+            channel_type: Octets(channel_type),
+        };
+        match self.chan_msg(dbid, Message::SetupChannel(m)) {
+            Outcome::Ok(Message::SetupChannelReply(_)) => Outcome::Ok(()),
+            Outcome::Ok(_) => Outcome::Err("wire-reply-of-another-type".into()),
+            Outcome::Err(e) => Outcome::Err(e),
+            Outcome::Panic(p) => Outcome::Panic(p),
+        }
+    }
+
     pub fn with_chan<T>(&self, dbid: u64, f: impl Fn(&mut Channel) -> Result<T, Status>) -> Outcome<T> {
         let id = self.channel_id(dbid);
         let node = self.node.clone();
